@@ -45,6 +45,7 @@ def schema_text(version):
   <xs:element name="item" type="xs:string" minOccurs="0" maxOccurs="unbounded"/>
   <xs:element ref="a" minOccurs="0" maxOccurs="unbounded"/>
   <xs:element name="f" type="xs:string" fixed="F" minOccurs="0"/>
+  <xs:element name="fx" type="xs:anySimpleType" fixed="1.0" minOccurs="0" maxOccurs="unbounded"/>
   <xs:element name="n" type="NT" minOccurs="0" maxOccurs="unbounded"/>
   <xs:any namespace="##other" processContents="lax" minOccurs="0" maxOccurs="unbounded"/>
 </xs:sequence>%s<xs:attribute name="when" type="xs:date"/><xs:attribute name="blob" type="xs:hexBinary"/></xs:complexType>
@@ -115,6 +116,10 @@ def gen_doc(rng):
         body += a_elem()
     if rng.random() < 0.4:
         body += '<f>%s</f>' % rng.choice(['F', 'F', 'X'])
+    for _ in range(rng.choice([0, 0, 1, 2])):
+        # a fixed value compared in the value space of the type named by xsi:type (decimal 1.00 = 1.0, string '1.00' is not '1.0')
+        body += '<fx xsi:type="xs:%s" xmlns:xs="http://www.w3.org/2001/XMLSchema">%s</fx>' % (
+            rng.choice(['decimal', 'string', 'decimal', 'double']), rng.choice(['1.00', '1.0', '1', '2']))
     for _ in range(rng.randint(0, 2)):
         lo, hi = rng.randint(1, 3), rng.randint(1, 3)
         body += '<n lo="%d" hi="%d">%s</n>' % (lo, hi, rng.choice(['3', '4', '12', 'q']))
